@@ -165,6 +165,18 @@ def peer_hex(i: int, upper: bool = False) -> str:
     return s.upper() if upper else s
 
 
+def spell(rng, i: int, mode: str = "") -> str:
+    """the 64 hex digits of peer id i written lower / UPPER / MiXed (each letter digit's case chosen at random)"""
+    base = peer_hex(i)
+    mode = mode or rng.choice(["lower", "upper", "mixed", "mixed"])
+    if mode == "lower":
+        return base
+    if mode == "upper":
+        return base.upper()
+    out = "".join(ch.upper() if rng.random() < 0.5 else ch for ch in base)
+    return out if out != base else base[:-2] + base[-2:].upper()
+
+
 BOUNDARY_SIZES = [1, 31, 32, 33, 63, 64, 65, 4095, 4096, 4097, 8192, 16383, 16384, 16385, 20000]
 
 
@@ -198,14 +210,16 @@ def split_random(rng, b: bytes, pieces: int) -> list[bytes]:
     return out
 
 
-def target_script(rng, k: int, ident: int, *, rereg: float, chatter: float) -> list[list[str]]:
+def target_script(rng, k: int, ident: int, *, rereg: float, chatter: float, spelled: bool = False) -> list[list[str]]:
     """phases: 0 register, 1 (after being claimed) extra commands, 3 data, 4 leave"""
     ph = [[], [], [], [], []]
-    reg = b"REGISTER " + peer_hex(ident, upper=rng.random() < 0.15).encode() + (b"\r\n" if rng.random() < 0.2 else b"\n")
+    first = spell(rng, ident) if spelled else peer_hex(ident, upper=rng.random() < 0.15)
+    reg = b"REGISTER " + first.encode() + (b"\r\n" if rng.random() < 0.2 else b"\n")
     for piece in split_random(rng, reg, rng.choice([1, 1, 1, 2, 3])):
         ph[0].append(snd(k, piece))
     if rng.random() < rereg:
-        again = b"REGISTER " + peer_hex(ident if rng.random() < 0.6 else rng.randrange(3)).encode() + b"\n"
+        again_id = ident if rng.random() < 0.6 else rng.randrange(3)
+        again = b"REGISTER " + (spell(rng, again_id) if spelled else peer_hex(again_id)).encode() + b"\n"
         ph[1].append(snd(k, again))
     if rng.random() < chatter:
         ph[1].append(snd(k, rng.choice([b'PONG', b'PONG\n', b'PING\n', b'CONNECT ' + peer_hex(2).encode() + b' ' + peer_hex(ident).encode() + b'\n', b'xx'])))
@@ -214,9 +228,11 @@ def target_script(rng, k: int, ident: int, *, rereg: float, chatter: float) -> l
     return ph
 
 
-def connector_script(rng, k: int, self_id: int, target_id: int) -> list[list[str]]:
+def connector_script(rng, k: int, self_id: int, target_id: int, *, spelled: bool = False, target_mode: str = "") -> list[list[str]]:
     ph = [[], [], [], [], []]
-    con = b"CONNECT " + peer_hex(self_id).encode() + b" " * rng.choice([1, 1, 1, 2]) + peer_hex(target_id).encode() + (b"\r\n" if rng.random() < 0.2 else b"\n")
+    self_text = spell(rng, self_id) if spelled else peer_hex(self_id)
+    target_text = spell(rng, target_id, target_mode) if spelled else peer_hex(target_id)
+    con = b"CONNECT " + self_text.encode() + b" " * rng.choice([1, 1, 1, 2]) + target_text.encode() + (b"\r\n" if rng.random() < 0.2 else b"\n")
     identity = rand_bytes(rng, 32)
     style = rng.choice(["plain", "plain", "pipelined", "fragments", "all-in-one", "short"])
     if style == "plain":
@@ -266,11 +282,17 @@ def interleave(rng, scripts: dict[int, list[list[str]]], phased: bool) -> list[s
 
 def gen_pairing(rng, shape: str, big: bool) -> Case:
     """targets and connectors over 2-5 clients and 1-3 ids"""
-    nclients = rng.choice([2, 3, 3, 4, 4, 5]) if shape != "rereg" else rng.choice([3, 4, 5])
-    nids = rng.choice([1, 2, 3])
+    nclients = rng.choice([2, 3, 3, 4, 4, 5]) if shape not in ("rereg", "spelling") else rng.choice([3, 4, 5])
+    nids = rng.choice([1, 2, 3]) if shape != "spelling" else rng.choice([1, 1, 2])
+    spelled = shape == "spelling"
+    # spelling: the same 32-byte id written lower / UPPER / MiXed in REGISTER, CONNECT self and CONNECT target;
+    # several connectors aim at one registered peer, each with its own spelling of the target
+    modes = ["lower", "upper", "mixed"]
+    rng.shuffle(modes)
     scripts: dict[int, list[list[str]]] = {}
     roles = {}
-    ntargets = 1 if shape == "rereg" else max(1, rng.randint(1, nclients - 1))
+    ntargets = 1 if shape == "rereg" else (rng.choice([1, 1, 2]) if spelled else max(1, rng.randint(1, nclients - 1)))
+    ntargets = min(ntargets, nclients - 2) if spelled else ntargets
     if shape == "dup":
         nids = 1
         ntargets = max(2, min(ntargets, nclients - 1)) if nclients > 2 else 1
@@ -280,13 +302,14 @@ def gen_pairing(rng, shape: str, big: bool) -> Case:
         if k <= ntargets:
             ident = rng.randrange(nids)
             roles[k] = ("t", ident)
-            scripts[k] = target_script(rng, k, ident, rereg=0.9 if shape == "rereg" else (0.25 if shape == "mixed" else 0.1),
-                                       chatter=0.3)
+            scripts[k] = target_script(rng, k, ident, rereg=0.9 if shape == "rereg" else (0.25 if shape in ("mixed", "spelling") else 0.1),
+                                       chatter=0.3, spelled=spelled)
         else:
             tid = rng.randrange(nids)
-            sid = tid if (shape == "selfconn" and rng.random() < 0.5) else rng.choice([5, 6, 7])
+            sid = tid if (shape in ("selfconn", "spelling") and rng.random() < (0.5 if shape == "selfconn" else 0.3)) else rng.choice([5, 6, 7])
             roles[k] = ("c", tid)
-            scripts[k] = connector_script(rng, k, sid, tid)
+            scripts[k] = connector_script(rng, k, sid, tid, spelled=spelled,
+                                          target_mode=modes[(k - ntargets - 1) % 3] if spelled and rng.random() < 0.8 else "")
     if shape == "selfconn":
         # a registered session tries to CONNECT (to itself / to another id)
         k = 1
@@ -390,7 +413,7 @@ def gen_orders(kinds=("eof", "hup")) -> list[Case]:
 # The check
 # --------------------------------------------------------------------------------------
 
-PAIRING_SHAPES = ["mixed", "mixed", "rereg", "rereg", "dup", "selfconn", "stage", "stage"]
+PAIRING_SHAPES = ["mixed", "mixed", "rereg", "rereg", "dup", "selfconn", "stage", "stage", "spelling", "spelling"]
 
 
 def generate(ctx, budget):
@@ -438,6 +461,7 @@ def spec() -> Spec:
         per_case_timeout=40.0,
         rule="interleavings of REGISTER/CONNECT/identity/data/disconnect scripts of 2-5 clients over 1-3 peer ids against the real "
              "RelayServer on loopback sockets (harness-scheduled events, drained after every op): re-registration of a claimed peer, "
+             "one peer id spelled lower/UPPER/MiXed across REGISTER, CONNECT self and CONNECT target with several connectors per peer, "
              "duplicate ids, CONNECT from registered sessions, self-connect, pipelined and fragmented commands/identity, payloads around "
              "4096/16384, disconnect (FIN, half-close, RST, HUP) at every stage; plus malformed streams; distinct = sha256 of the op list; "
              "non-trivial = a bridge is established",
